@@ -63,6 +63,18 @@ class PMFacts:
           return True
     return False
 
+  def write_keeps_instrument_order(self):
+    """PrettyMIDI.write walks self.instruments in list order (one track per instrument, channels handed out in that order)
+    and never sorts the list: the order in which instruments are appended reaches the file."""
+    node = next(n for n in self.tree_pm.body if isinstance(n, ast.ClassDef) and n.name == 'PrettyMIDI')
+    w = next((n for n in node.body if isinstance(n, ast.FunctionDef) and n.name == 'write'), None)
+    if w is None:
+      return False
+    walks = any(isinstance(n, ast.For) and 'self.instruments' in ast.unparse(n.iter) and 'sorted' not in ast.unparse(n.iter) for n in ast.walk(w))
+    sorts = any(isinstance(n, ast.Call) and isinstance(n.func, ast.Attribute) and n.func.attr == 'sort' and ast.unparse(n.func.value) == 'self.instruments'
+                for n in ast.walk(w))
+    return walks and not sorts
+
   def get_tempo_changes_is_pure(self):
     node = next(n for n in self.tree_pm.body if isinstance(n, ast.ClassDef) and n.name == 'PrettyMIDI')
     g = next((n for n in node.body if isinstance(n, ast.FunctionDef) and n.name == 'get_tempo_changes'), None)
